@@ -98,6 +98,8 @@ class SimItem:
 
 
 ALGS = ["search", "search_lazy", "search_init", "sort", "min", "distinct"]
+_SEARCH_PROBE = {}
+core.count_calls(gs.IterativeTighteningSearch, "_delete_node", _SEARCH_PROBE, "deleted")   # reach probe only
 
 
 class C17:
@@ -226,10 +228,7 @@ class C17:
                     lo, hi = case["init"]
                     init = Range(gb.NEGATIVE_INFINITY if lo is None else lo, gb.POSITIVE_INFINITY if hi is None else hi)
                 s = gs.IterativeTighteningSearch(src, initial_bounds=init)
-                dn = getattr(gs.IterativeTighteningSearch, "_delete_node", None)
-                deleted = [0]
-                if dn is not None:
-                    s._delete_node = lambda node, _o=dn: (deleted.__setitem__(0, deleted[0] + 1), _o(s, node))[1]
+                _SEARCH_PROBE.clear()
                 first = s.tighten_bounds()
                 if alg != "search" and pulled[0] < len(items):
                     probe("search_lazy_not_exhausted_first_call")
@@ -237,8 +236,8 @@ class C17:
                 best = s.search()
                 b = s.bounds()
                 log.add("search", None if best is None else best.uid, b.lower_bound, b.upper_bound, stats["calls"])
-                if deleted[0]:
-                    probe("search_deleted_node", deleted[0])
+                if _SEARCH_PROBE.get("deleted"):
+                    probe("search_deleted_node", _SEARCH_PROBE["deleted"])
                 if init is not None and pulled[0] < len(items):
                     probe("search_initial_bounds_shortcut")
                 if items:
